@@ -46,6 +46,10 @@ CONFIGS = {
     "serde-buf": (["t-default", "serde-buffered"], ""),
     "serde-buf-strict": (["t-default", "serde-buffered", "strict"], ""),
     "serde-unsafe-strict": (["t-default", "serde", "strict", "unsafe_"], ""),
+    # all x86 back ends callable under Miri (feature detection is compile-time there)
+    "default-avx2": (["t-default"], "-Ctarget-feature=+ssse3,+sse4.1,+avx2"),
+    "unsafe-avx2": (["t-default", "unsafe_"], "-Ctarget-feature=+ssse3,+sse4.1,+avx2"),
+    "serde-strict-avx2": (["t-default", "serde", "strict"], "-Ctarget-feature=+ssse3,+sse4.1,+avx2"),
     # invariant observers (hook H7): extra cfg
     "inv-default": (["t-default"], "--cfg fast_tlsh_verif_invariants"),
     "inv-naive": (BASE, "--cfg fast_tlsh_verif_invariants"),
